@@ -59,6 +59,15 @@ def load_corpus(pid):
     return res
 
 
+def safe_oracle(prop, c, ops, results, side):
+    """The oracle reads transcripts; a transcript it cannot interpret (a side that stopped early or answered in another
+    shape) is a failure of that side, never a crash of the check."""
+    try:
+        return prop.oracle(c, ops, results)
+    except Exception as e:                                   # noqa: BLE001
+        return [{"msg": "the %s transcript could not be interpreted by the oracle (%s: %s)" % (side, type(e).__name__, e)}]
+
+
 def evaluate(prop, cases, bins, driver, workdir, want_model=True):
     impl = run_impl(bins[prop.pkg], cases, workdir, test=prop.test)
     model = run_model(driver, impl) if want_model else {}
@@ -68,14 +77,14 @@ def evaluate(prop, cases, bins, driver, workdir, want_model=True):
         lines = impl.get(cid)
         if lines is None:
             raise BuildError("implementation produced no transcript for case %d" % cid)
-        ops = parse_ops(lines)
+        ops = [o for o in parse_ops(lines) if o[0] != "readsum"]   # pseudo-op emitted by the harness itself (Clean's stdout)
         ri = parse_results(lines)
         rm = parse_results(model.get(cid, [])) if want_model else None
         mism = []
         if want_model and prop.in_model_domain(c):
             mism = compare(ri, rm, prop.fields)
-        fi = prop.oracle(c, ops, ri)
-        fm = prop.oracle(c, ops, rm) if (want_model and prop.in_model_domain(c)) else []
+        fi = safe_oracle(prop, c, ops, ri, "implementation")
+        fm = safe_oracle(prop, c, ops, rm, "model") if (want_model and prop.in_model_domain(c)) else []
         out[cid] = dict(ops=ops, ri=ri, rm=rm, mism=mism, fi=fi, fm=fm, lines=lines,
                         model_lines=model.get(cid, []))
     return out
